@@ -1,7 +1,8 @@
 /-
   Small concrete programs for the non-vacuity examples and counterexamples of C04, C07, C08.
 -/
-import Simpleline.Lemmas.SchedBridge
+import Simpleline.Lemmas.SchedC07
+import Simpleline.Lemmas.SchedC08
 
 namespace Simpleline
 namespace Ex
@@ -41,11 +42,26 @@ def P3 : Prog :=
 
 def c3 : Cfg := initCfg [.schedule 0 none] [] none []
 
-/-- One screen with input. The typed lines are answered by the script of `input()`. -/
+/-- Screen 0 with input: the typed lines are answered by the script of `input()`. Screen 1 is a quit
+dialog whose draw closes it at once and whose answer is "no". -/
 def P4 (answers : Nat → Ret) (quit : Option Nat := none) : Prog :=
   { cc := asciiClass, width := 40, screens := [{ noSeparator := true }, { quiet with answer := some (some false) }],
     quitScreen := quit,
-    screenScript := fun scr cb n => if scr = 0 ∧ cb = .input then { ret := answers n } else {} }
+    screenScript := fun scr cb n =>
+      if scr = 0 ∧ cb = .input then { ret := answers n }
+      else if scr = 1 ∧ cb = .show then { acts := [.closeDirect] }
+      else {} }
+
+/-- the `input()` of the only screen raises an ordinary exception -/
+def P9 : Prog :=
+  { cc := asciiClass, width := 40, screens := [{ noSeparator := true }],
+    screenScript := fun _ cb _ => if cb = .input then { acts := [.raiseErr] } else {} }
+
+/-- the callback invocations of a run, oldest first -/
+def cbs (c : Cfg) : List Ev := (c.log.filter Ev.isCb).reverse
+
+/-- the scheduler events of a run, oldest first -/
+def sched (c : Cfg) : List Tr := (c.tr.filter Tr.isSched).reverse
 
 def c4 (lines : List String) : Cfg := initCfg [.schedule 0 none] [] none (lines.map String.toList)
 
@@ -65,12 +81,33 @@ def P6 : Prog :=
 
 def c6 : Cfg := initCfg [.schedule 1 none, .schedule 0 none] [] none []
 
-/-- the `setup` of screen 0 pushes screen 1 and then reports failure: what is discarded is screen 1 -/
+/-- the first `setup` of screen 0 pushes screen 1 and then reports failure: what is discarded is
+screen 1, and screen 0 is set up again -/
 def P7 : Prog :=
   { cc := asciiClass, width := 10, screens := [quiet, quiet],
-    screenScript := fun scr cb _ => if scr = 0 ∧ cb = .setup then { acts := [.push 1 none], ret := .failBefore } else {} }
+    screenScript := fun scr cb n =>
+      if scr = 0 ∧ cb = .setup ∧ n = 0 then { acts := [.push 1 none], ret := .failBefore } else {} }
 
 def c7 : Cfg := initCfg [.schedule 0 none] [] none []
+
+/-- is the counting step of `scr` the next instruction? (`Instr` has no decidable equality) -/
+def headCA (c : Cfg) (scr : Nat) : Bool :=
+  match c.code with
+  | .countAndAct s :: _ => s == scr
+  | _ => false
+
+theorem headCA_spec {c : Cfg} {scr : Nat} (h : headCA c scr = true) : ∃ rest, c.code = .countAndAct scr :: rest := by
+  unfold headCA at h
+  split at h
+  · rename_i s rest hc
+    exact ⟨rest, by rw [hc, beq_iff_eq.1 h]⟩
+  · cases h
+
+/-- is a `setup` callback of `scr` the next instruction? -/
+def headSetup (c : Cfg) (scr : Nat) : Bool :=
+  match c.code with
+  | .callScr s .setup _ _ :: _ => s == scr
+  | _ => false
 
 end Ex
 end Simpleline
